@@ -26,7 +26,14 @@ Inductive ix := XIt (c : Z) | XIn (lo hi : bound) | XAny.
 Inductive akind :=
 | AElem      (* element / row / whole-object read or write through an index pattern *)
 | AAppend    (* push_back / back_inserter copy into a container *)
-| AOpaque.   (* anything the translator cannot classify (unknown or mutating call on a shared object) *)
+| AOpaque    (* anything the translator cannot classify (unknown or mutating call on a shared object) *)
+| AEscape.   (* wave 4: a write THROUGH an iterator / pointer into a shared container that the body obtained earlier
+                (typically inside a critical section: "claim a block under the lock, fill it in place after the lock") —
+                a_crit says whether the write itself is inside a critical section.  The location written is whatever the
+                iterator pointed at when it was obtained: if another iteration makes the container reallocate in between
+                (resize / push_back / reserve under the lock), the write goes to the freed buffer and the reallocating
+                copy reads cells that are being written.  Never accepted (Par_Claim_Model: what the pattern needs to be
+                safe is a capacity invariant the descriptor language cannot express). *)
 
 Record access := mkAcc {
   a_var : string; a_write : bool; a_crit : bool; a_kind : akind; a_i : ix; a_j : ix }.
@@ -124,6 +131,7 @@ Definition same_var (a b : access) : bool := String.eqb (a_var a) (a_var b).
 Definition access_ok (accs : list access) (a : access) : bool :=
   match a_kind a with
   | AOpaque => false
+  | AEscape => false
   | AAppend => a_crit a && forallb (fun b => negb (same_var a b) || a_crit b) accs
   | AElem =>
       negb (a_crit a) &&
@@ -167,6 +175,7 @@ Definition find_pair (n : nat) (a b : access) : option (string * (Z * Z * (Z * Z
 Definition bad_access (accs : list access) (a : access) : option (string * (Z * Z * (Z * Z))) :=
   match a_kind a with
   | AOpaque => Some (a_var a, (0, 1, (-1, -1)))
+  | AEscape => Some (a_var a, (0, 1, (-1, -1)))
   | AAppend =>
       if a_crit a && forallb (fun b => negb (same_var a b) || a_crit b) accs then None
       else Some (a_var a, (0, 1, (-1, -1)))
